@@ -3,6 +3,71 @@ adaptor that changes which positions survive (filter, filter_map, flatten, flat_
 the pairs no longer line up with the parallel tables they come from (deltas with regions, components with deltas, scalars
 with deltas). A zip whose two sides differ in such adaptors is a violation; both sides filtered alike, or none, is fine."""
 import sym
+from facts import op_local
+
+# calls that change the order of a collection in place, through a mutable reference (calls that add or remove elements are how
+# collections are built and are not counted)
+REORDERING = ("::sort", "::sort_by", "::sort_by_key", "::sort_unstable", "::sort_unstable_by", "::sort_unstable_by_key", "::sort_by_cached_key",
+              "::reverse", "::rotate_left", "::rotate_right", "::swap", "::rev")
+
+
+def _defs(b, l):
+    out = []
+    for bi in range(len(b.blocks)):
+        if not b.reachable(bi):
+            continue
+        for st in b.stmts(bi):
+            if st["k"] == "assign" and st["p"]["l"] == l and not st["p"]["p"]:
+                out.append(("s", st))
+        t = b.term(bi)
+        if t["k"] == "call" and t.get("dest") and t["dest"]["l"] == l and not t["dest"]["p"]:
+            out.append(("c", t))
+    return out
+
+
+def _chain_locals(b, op, through_calls=True, depth=0, seen=None):
+    """locals the operand's value passed through: its own local and, transitively over every definition of each local, the source of a
+    move / copy / cast / borrow / projection and (with through_calls) the first argument of a defining call - the receiver of an adaptor,
+    the collection an iterator was made from, the Result a `?` unwrapped"""
+    seen = set() if seen is None else seen
+    # the base local of the operand's place: a projection (`(_7 as Continue).0`, `(*_3).records`) still comes from that local
+    l = op["p"]["l"] if op and op.get("k") in ("copy", "move") else None
+    if l is None or l in seen or depth > 40:
+        return seen
+    seen.add(l)
+    if l <= b.arg_count:
+        return seen
+    for kind, d in _defs(b, l):
+        if kind == "c":
+            reborrow = str(d["callee"].get("path") or "").endswith(("Deref::deref", "DerefMut::deref_mut", "::as_mut_slice", "::as_mut", "::as_slice",
+                                                                    "IndexMut::index_mut", "Index::index", "BorrowMut::borrow_mut"))
+            if through_calls or reborrow:
+                for a in d["args"][:1]:
+                    _chain_locals(b, a, through_calls, depth + 1, seen)
+        else:
+            rv = d["rv"]
+            if rv["k"] in ("use", "cast"):
+                _chain_locals(b, rv["op"], through_calls, depth + 1, seen)
+            elif rv["k"] in ("ref", "rawptr"):
+                _chain_locals(b, {"k": "copy", "p": {"l": rv["p"]["l"], "p": []}}, through_calls, depth + 1, seen)
+    return seen
+
+
+def reordered(b, op):
+    """names of the in-place reordering calls applied, anywhere in the body, to a collection that the operand's value was made from:
+    the call's receiver borrows (directly, through re-borrows only) a local on the operand's provenance chain. A sort of a copy does not
+    reorder the collection the copy was taken from, so the receiver is not followed through calls"""
+    chain = _chain_locals(b, op)
+    out = set()
+    for bi, t in b.calls():
+        p = t["callee"].get("path") or ""
+        if not p.endswith(REORDERING) or not t["args"]:
+            continue
+        recv = {l for l in _chain_locals(b, t["args"][0], through_calls=False) if l > b.arg_count}
+        if recv & chain:
+            out.add(p.split("::")[-1])
+    return sorted(out)
+
 
 SHIFTING = ("Iterator::filter", "Iterator::flatten", "Iterator::filter_map", "Iterator::skip_while", "Iterator::take_while",
             "Iterator::step_by", "Iterator::flat_map", "Iterator::skip")
@@ -27,6 +92,11 @@ def rule_zip(run, fx, rule, select=None, floors=True, floor_n=1):
             for a in t["args"]:
                 tm = prov.op(a)
                 sides.append(sorted({(x[4] or x[1] or "").split("::")[-1] for x in sym.walk(tm) if x[0] == "call" and (x[4] or x[1] or "").endswith(SHIFTING)}))
+            orders = [reordered(b, a) for a in t["args"]]
+            if orders[0] != orders[1]:
+                run.fail(rule, "zip-order:%s" % b.root, "%s zips a sequence whose collection was reordered in place (%s) with one that was not (%s): element k of one side no "
+                         "longer belongs to element k of the other" % (b.path, orders[0] or "nothing", orders[1] or "nothing"), b.loc(t))
+                continue
             if sides[0] != sides[1]:
                 run.fail(rule, "zip:%s" % b.root, "%s zips a sequence that went through %s with one that went through %s: the pairs are shifted against each other "
                          "whenever an element is dropped" % (b.path, sides[0] or "no dropping adaptor", sides[1] or "no dropping adaptor"), b.loc(t))
